@@ -38,7 +38,7 @@ PLAN = {
     'C12': {'gated': (['adapter'], 60, 625), 'free': (['adapter'], 48, 800), 'model': []},
     'C13': {'gated': (['dist', 'adapter', 'distbind'], 60, 625), 'free': (['dist'], 64, 1000), 'model': []},
     'C14': {'gated': (['life'], 48, 375), 'free': (['life'], 48, 600), 'model': [], 'life_exhaustive': (3, 4)},
-    'C15': {'gated': (['multi'], 80, 750), 'free': (['multi'], 32, 600), 'model': []},
+    'C15': {'gated': (['multi', 'multim'], 80, 750), 'free': (['multi'], 32, 600), 'model': ['MC_multi']},
     'C16': {'gated': (['basic', 'handle', 'cancel', 'batch'], 64, 750), 'free': (['basic', 'handle'], 96, 2400), 'model': ['MC_core']},
     'C17': {'gated': (['basic', 'multi', 'cancel', 'ctl'], 64, 750), 'free': (['basic', 'multi'], 64, 1200), 'model': []},
     'C18': {'gated': (['pool', 'ctl', ('tune', 2)], 64, 750), 'free': (['pool'], 64, 1200), 'model': []},
@@ -58,9 +58,10 @@ MODEL_PLAN = {
     'C10': (['cancel', 'purge'], ['qclose', 'cancel2'], []),
     'C11': (['adapter', 'crash', 'adapterfault'], ['crash2'], ['crash']),
     'C12': (['adapterfault'], ['adapter'], []),
-    'C14': (['ctx0', 'pause'], ['ctx', 'stop', 'stop2', 'restart', 'was', 'pause2'], []),
+    'C14': (['ctx0', 'pause', 'bind'], ['ctx', 'stop', 'stop2', 'restart', 'was', 'pause2', 'bindstop', 'bindctx', 'ctxpause', 'ctxpause2'], []),
+    'C15': (['multirr', 'multimax'], ['multirr2', 'multimin', 'bind'], ['multirr']),
     'C16': (['barrier', 'cancel'], ['conc2', 'purge', 'prio'], []),
-    'C17': (['conc2', 'pause'], ['tune'], []),
+    'C17': (['conc2', 'pause', 'multirr'], ['tune', 'multimax', 'multirr2'], []),
     'C18': (['expiry', 'ctx0'], ['ratio', 'tune', 'stop', 'restart', 'ctx'], []),
 }
 
